@@ -182,7 +182,7 @@ def _mcsp_finish(c, outcome, args, old):
         kind="post", detail=str([(getattr(e.node_type, "__name__", e.node_type), e.include_detached) for e in asked]))
 
 
-_upgrade("stepup/core/workflow.py::Workflow.mark_consuming_steps_pending", ["C09", "C03", "C04", "C05"],
+_upgrade("stepup/core/workflow.py::Workflow.mark_consuming_steps_pending", ["C09", "C03", "C04", "C05", "C02"],
          args=dict(self=ty.Make(_McWorkflow), file=ty.Make(_McFile)), finish=_mcsp_finish,
          loops={0: LoopSpec(step_post=_mc_iteration)})
 
